@@ -58,8 +58,8 @@ def make_substitution(ccls, case_map=None):
             for expr_name, spec in mods.items():
                 base_name, _, attr = expr_name.partition(".")
                 base = ns[base_name]
-                I.set_attr(base, attr, make_symbolic(I, spec, f"{site}#{n}.{expr_name}"))
-            result = make_symbolic(I, rspec, f"{site}#{n}.result") if rspec is not None else None
+                I.set_attr(base, attr, make_symbolic(I, spec, f"{site}#{n}.{expr_name}", env=ns))
+            result = make_symbolic(I, rspec, f"{site}#{n}.result", env=ns) if rspec is not None else None
             ns["result"] = result
             for name, f in contract_functions(ccls, "ensures"):
                 v = I.spec_call(f, bind_by_name(f, ns))
